@@ -218,18 +218,22 @@ struct ruge_stuben {
             Scalar cf_neg = 1;
             Scalar cf_pos = 1;
 
+            // "Numerically zero" is relative to the size of the row
+            // (its diagonal), not to 1:
+            const Scalar eps_i = eps * math::norm(dia);
+
             if (prm.do_trunc) {
-                if (math::norm(static_cast<Val>(a_den - d_neg)) > eps)
+                if (math::norm(static_cast<Val>(a_den - d_neg)) > eps_i)
                     cf_neg = math::norm(a_den) / math::norm(static_cast<Val>(a_den - d_neg));
 
-                if (math::norm(static_cast<Val>(b_den - d_pos)) > eps)
+                if (math::norm(static_cast<Val>(b_den - d_pos)) > eps_i)
                     cf_pos = math::norm(b_den) / math::norm(static_cast<Val>(b_den - d_pos));
             }
 
-            if (zero < b_num && math::norm(b_den) < eps) dia += b_num;
+            if (zero < b_num && math::norm(b_den) < eps_i) dia += b_num;
 
-            Scalar alpha = math::norm(a_den) > eps ? -cf_neg * math::norm(a_num) / (math::norm(dia) * math::norm(a_den)) : 0;
-            Scalar beta  = math::norm(b_den) > eps ? -cf_pos * math::norm(b_num) / (math::norm(dia) * math::norm(b_den)) : 0;
+            Scalar alpha = math::norm(a_den) > eps_i ? -cf_neg * math::norm(a_num) / (math::norm(dia) * math::norm(a_den)) : 0;
+            Scalar beta  = math::norm(b_den) > eps_i ? -cf_pos * math::norm(b_num) / (math::norm(dia) * math::norm(b_den)) : 0;
 
             for(ptrdiff_t j = A.ptr[i], e = A.ptr[i + 1]; j < e; ++j) {
                 ptrdiff_t c = A.col[j];
@@ -286,11 +290,18 @@ struct ruge_stuben {
                 S.ptr[i+1] = 0;
 
                 Val a_min = math::zero<Val>();
+                Val a_dia = math::zero<Val>();
 
-                for(auto a = row_begin(A, i); a; ++a)
-                    if (a.col() != i) a_min = std::min(a_min, a.value());
+                for(auto a = row_begin(A, i); a; ++a) {
+                    if (a.col() != i)
+                        a_min = std::min(a_min, a.value());
+                    else
+                        a_dia = a.value();
+                }
 
-                if (math::norm(a_min) < eps) {
+                // "Numerically zero" is relative to the size of the row
+                // (its diagonal), not to 1:
+                if (math::is_zero(a_min) || math::norm(a_min) < eps * math::norm(a_dia)) {
                     cf[i] = 'F';
 
                     // The row has no strong connections:
